@@ -62,6 +62,7 @@ type history struct {
 	preTo   int64
 	start   int64 // chain head when the service starts
 	end     int64 // chain head at the end of the history
+	preErr  error // IndexBlock failed while building the earlier session's index
 }
 
 func (h *history) initialDB() dbm.DB {
@@ -71,7 +72,8 @@ func (h *history) initialDB() dbm.DB {
 		for b := h.preFrom; b <= h.preTo; b++ {
 			sb := h.st.at(b)
 			if err := idx.IndexBlock(sb.rb.Block, sb.rr.TxsResults); err != nil {
-				panic(err)
+				h.preErr = fmt.Errorf("IndexBlock(%d): %w", b, err)
+				break
 			}
 		}
 	}
@@ -153,6 +155,10 @@ type crashPointResult struct {
 func (h *history) enumerate(res *Result, r *vh.RNG, workers int) {
 	// reference: uninterrupted run
 	refDB := h.initialDB()
+	if h.preErr != nil {
+		res.Violation("index-block-error", h.label, map[string]any{"history": h.describe(), "error": h.preErr.Error()})
+		return
+	}
 	refCrash := NewCrashDB(refDB, 0, false)
 	so := h.session(refCrash, refCrash, h.start, h.end)
 	if so.watchdog || so.startErr != nil {
